@@ -366,6 +366,28 @@ class AggrGen:
         return getattr(self, kind)()
 
 
+def case_to_json(case):
+    def cell(v):
+        return {'q': [v.numerator, v.denominator]} if isinstance(v, Fraction) else v
+    c = {k: v for k, v in case.items() if k != 'env'}
+    c['ids'] = [list(x) for x in case['ids']]
+    c['meas'] = [list(x) for x in case['meas']]
+    c['env'] = {n: {'ids': [list(x) for x in d['ids']], 'meas': [list(x) for x in d['meas']],
+                    'rows': [[cell(v) for v in row] for row in d['rows']]} for n, d in case['env'].items()}
+    return c
+
+
+def case_from_json(c):
+    def cell(v):
+        return Fraction(v['q'][0], v['q'][1]) if isinstance(v, dict) else v
+    c = dict(c)
+    c['ids'] = [tuple(x) for x in c['ids']]
+    c['meas'] = [tuple(x) for x in c['meas']]
+    c['env'] = {n: {'ids': [tuple(x) for x in d['ids']], 'meas': [tuple(x) for x in d['meas']],
+                    'rows': [tuple(cell(v) for v in row) for row in d['rows']]} for n, d in c['env'].items()}
+    return c
+
+
 def request(case):
     return '(eval %s %s)' % (G.env_sx(case['env']), case['sx'])
 
